@@ -549,4 +549,74 @@ theorem fold_reports (q : Name) (n : Nat) (d : Decl) :
       have k := lookup_keeps q (n + 1) s x hm hs
       exact List.mem_cons_of_mem _ (ih _ k.marked k.store (k.staging.trans hg) hq')
 
+/-! ### include registration: first wins, and only RESOLVED locations count -/
+
+/-- what is registered stays registered, in its place: later inclusions never displace a document -/
+theorem includeGo_prefix (docs : List Doc) :
+    ∀ n visited todo, visited <+: includeGo docs n visited todo := by
+  intro n
+  induction n with
+  | zero => intro v t; simp [includeGo]
+  | succ n ih =>
+    intro v t
+    cases t with
+    | nil => simp [includeGo]
+    | cons k todo =>
+      simp only [includeGo]
+      split
+      · exact ih _ _
+      · split
+        · exact ih _ _
+        · exact (List.prefix_append v [k]).trans (ih _ _)
+
+/-- two descriptions of the same documents: same keys, same RESOLVED include locations (the spelled locations
+    and the directories they are relative to may differ) -/
+def SameResolved (d₁ d₂ : Doc) : Prop := d₁.key = d₂.key ∧ resolvedIncludes d₁ = resolvedIncludes d₂
+
+/-- document lists that describe the same documents position by position -/
+inductive AllSame : List Doc → List Doc → Prop
+  | nil : AllSame [] []
+  | cons {d₁ d₂ l₁ l₂} : SameResolved d₁ d₂ → AllSame l₁ l₂ → AllSame (d₁ :: l₁) (d₂ :: l₂)
+
+theorem findDoc_sameResolved : ∀ (l₁ l₂ : List Doc), AllSame l₁ l₂ → ∀ k,
+    (findDoc l₁ k = none ∧ findDoc l₂ k = none) ∨
+    (∃ d₁ d₂, findDoc l₁ k = some d₁ ∧ findDoc l₂ k = some d₂ ∧ SameResolved d₁ d₂)
+  | [], [], _, k => Or.inl ⟨rfl, rfl⟩
+  | [], _ :: _, h, _ => by cases h
+  | _ :: _, [], h, _ => by cases h
+  | d₁ :: l₁, d₂ :: l₂, h, k => by
+    cases h with
+    | cons hd tl =>
+      unfold findDoc
+      simp only [List.find?_cons]
+      by_cases e : d₁.key = k
+      · have e2 : d₂.key = k := by rw [← hd.1]; exact e
+        simp only [e, e2, decide_true]
+        exact Or.inr ⟨d₁, d₂, rfl, rfl, hd⟩
+      · have e2 : ¬ d₂.key = k := by rw [← hd.1]; exact e
+        simp only [e, e2, decide_false]
+        exact findDoc_sameResolved l₁ l₂ tl k
+
+theorem includeGo_sameResolved (l₁ l₂ : List Doc) (h : AllSame l₁ l₂) :
+    ∀ n visited todo, includeGo l₁ n visited todo = includeGo l₂ n visited todo := by
+  intro n
+  induction n with
+  | zero => intro v t; simp [includeGo]
+  | succ n ih =>
+    intro v t
+    cases t with
+    | nil => simp [includeGo]
+    | cons k todo =>
+      simp only [includeGo]
+      by_cases hk : k ∈ v
+      · simp only [hk, if_true]; exact ih _ _
+      · simp only [hk, if_false]
+        rcases findDoc_sameResolved l₁ l₂ h k with ⟨a, b⟩ | ⟨d₁, d₂, a, b, c⟩
+        · rw [a, b]; exact ih _ _
+        · rw [a, b]
+          have := c.2
+          unfold resolvedIncludes at this
+          simp only [this]
+          exact ih _ _
+
 end XsVerif.Staged
